@@ -160,6 +160,23 @@ control("C08", "same-unit fast path before the quantity-type guard",
         [(S, "        if self.quantity_type != other.quantity_type:\n            msg = \"can not compare scalars of different quantity types: %r != %r\"", "        if self.unit == other.unit:\n            return self._value < other.value\n        if self.quantity_type != other.quantity_type:\n            msg = \"can not compare scalars of different quantity types: %r != %r\"")], "C08.R5")
 control("C08", "Scalar.__hash__ adds the unit database",
         [(S, "        return hash((self._value, self._quantity))", "        return hash((self._value, self._quantity, id(self._unit_database)))")], "C08.R4")
+# ------------------------------------------------------------------------------------------ C20
+control("C20", "separator fix reverted in the unit builder",
+        [(Q, "                        ret += \"1/\"\n                else:\n                    ret += \".\"\n", "                        ret += \"1/\"\n")], "C20.R1")
+control("C20", "separator fix reverted in _MakeStr",
+        [(Q, "                        ret += \"1 / \"\n                else:\n                    ret += \" * \"\n", "                        ret += \"1 / \"\n")], "C20.R1")
+control("C20", "numerator separator dropped in the unit builder",
+        [(Q, "                if ret:\n                    ret += \".\"\n", "")], "C20.R1")
+control("C20", "unit factors separated by a blank",
+        [(Q, "                if ret:\n                    ret += \".\"\n", "                if ret:\n                    ret += \" \"\n")], "C20.R2")
+control("C20", "denominator exponent rendered with its sign",
+        [(Q, "                    ret += str(abs(exp))", "                    ret += str(exp)")], "C20.R2")
+control("C20", "simple quantity takes the category default unit although a unit was given",
+        [(Q, "        self._unit = unit\n        self._tobase", "        self._unit = category_info.default_unit\n        self._tobase")], "C20.R3")
+control("C20", "formatted suffix ignores the requested unit",
+        [(A, "        if unit is None:\n            unit = self.GetUnit()\n        return self.FORMATTED_SUFFIX_FORMAT % unit", "        return self.FORMATTED_SUFFIX_FORMAT % self.GetUnit()")], "C20.R4")
+control("C20", "derived quantity type rendered from the category pairs only once",
+        [(Q, "            self._quantity_type = self._MakeStr(list(rep_and_exp.items()))", "            self._quantity_type = self._category")], "C20.R5")
 # ------------------------------------------------------------------------------------------ running
 def _apply(edits):
     overlay = {}
